@@ -230,6 +230,13 @@ func (lm *LockManager) RestorePolicy(ctx context.Context, storage logical.Storag
 	if lm.useCache {
 		lm.cache.Store(name, keyData.Policy)
 	}
+
+	// A request that picked the replaced policy up from the cache may still
+	// be waiting for its lock; as after a delete, it must not persist that
+	// object over the restored key.
+	if p != nil {
+		p.deleted.Store(true)
+	}
 	return nil
 }
 
